@@ -767,7 +767,33 @@ def rule_z15(ctx, facts):
         ctx.fail_closed("Z15: expected the copy walks of transfer (list and tree arm), treeify_bin and untreeify, found %d" % n)
 
 
+def rule_z16(ctx, facts):
+    """after taking part in a resize add_count looks at a FRESH count: every path from the return of a `transfer` call to the next load of
+    size_ctl (the next round of the loop) passes a load of HashMap.count.  Threads that inserted while the resize ran were turned away
+    (`sc == rs + 1`, no next table ...), so the participant that comes back is the one that has to notice that the threshold of the new
+    table has been crossed as well; with the count it computed before the resize it returns, and the map sits above its load factor
+    until some later insert happens to come along."""
+    from .rules_c14 import find_size_ctl_loads
+    from .anchors import is_std_atomic, receiver_field
+    ac = facts.body("map::HashMap::add_count")
+    tcalls = [c for c in ac.calls if callee_str(c).endswith("HashMap::transfer") and not ac.is_cleanup(c.b)]
+    sc_loads = {c.point for c in find_size_ctl_loads(ac)}
+    cnt_loads = {c.point for c in ac.calls if is_std_atomic(c) == "load" and ("map::HashMap", "count") in receiver_field(ac, c, 0)}
+    if not tcalls or not sc_loads:
+        ctx.fail_closed("Z16: expected calls of transfer and a size_ctl load in add_count (found %d, %d)" % (len(tcalls), len(sc_loads)))
+        return
+    for c in tcalls:
+        r = reach(ac, after(ac, c.point, label="ret"), avoid=cnt_loads, unwind=False)
+        stale = sorted(p for p in sc_loads if p in r)
+        ctx.inst("Z16", ac, "count re-read after transfer at %s" % c.span.split(":", 1)[1], c.span, not stale,
+                 "every path from the resize back to the threshold test reloads the count" if not stale else
+                 "after the resize joined / started at %s the loop tests size_ctl again (%s) with the count computed before the resize: inserts "
+                 "that were turned away meanwhile are never acted on, and the map stays above its load threshold" % (c.span, ac.span_at(stale[0])))
+
+
 def run(ctx, facts):
+    ctx.rule("Z16", "add_count re-reads the count after every resize it took part in, before it tests the threshold again", floor=2)
+    rule_z16(ctx, facts)
     ctx.rule("Z15", "the walks that copy an old bin are exhaustive: left only through a test of the cursor itself", floor=3)
     rule_z15(ctx, facts)
     ctx.rule("Z14", "an old bin is marked as forwarded only after both halves are stored in the new table (rule L3 of C01): a bin counts as "
